@@ -32,6 +32,8 @@ func runC16(c *Ctx) {
 	c16GroupBit(c)
 	c16SnapshotSameIndexes(c)
 	c16SuccessAlwaysNotified(c)
+	c16TrafficRevivalUnconditional(c, "RESET")
+	c16IndexToTypeTotal(c, "SNAPSHOT")
 }
 
 func c16Threshold(c *Ctx) {
